@@ -45,6 +45,12 @@ def all_configs():
     return out
 
 
+# the model variant that describes /repo as it is (Model.v `repaired`): the six file-system repairs are in, the two proposed
+# ones (proposed_fixes/C06-drawer-returns-internal, C06-lbfgs-zero-iterations) are not.  After they are applied: set them True
+# here and in `Definition repaired` of coq/C06/Model.v.
+EXPECTED = {"fx_zip": True, "fx_resume": True, "fx_timer": True, "fx_dill": True, "fx_chk": True, "fx_json": True,
+            "fx_drawer": False, "fx_zero": False}
+
 # searches judged by the oracle only (no Coq model): a checkpointing nested sampler and a particle swarm
 ORACLE_ONLY = [
     {"search": "dynesty", "remove_files": 1, "csv": 1, "keep_internal": 1, "chk": 0},
@@ -99,6 +105,8 @@ def detect_code(probes, extra):
     fx_resume   -- an LBFGS fit killed just before `.completed` resumes normally
     fx_timer    -- a fit killed while creating `.start_time` resumes normally
     fx_json     -- samples_summary.json is written through samples_summary.json.tmp
+    fx_drawer   -- (proposed) a fresh Drawer run returns its search internal in memory
+    fx_zero     -- (proposed) LBFGS with maxiter = 0 terminates normally
     fx_chk      -- with check_likelihood_function, an LBFGS fit killed just before `.completed` does not fail the sanity check"""
     fx_zip = any(ev == ["MV", "ZipTmp>Zip"] for c, r in probes for run in r["runs"] for ev in run["trace"])
     fx_dill = any(ev == ["MV", "DillTmp>Dill"] for c, r in probes for run in r["runs"] for ev in run["trace"])
@@ -106,7 +114,11 @@ def detect_code(probes, extra):
     fx_timer = extra[1]["runs"][1]["outcome"] == "ok"
     fx_chk = extra[2]["runs"][1]["outcome"] != "exc:SearchException"
     fx_json = any(ev == ["MV", "SummaryTmp>Summary"] for c, r in probes for run in r["runs"] for ev in run["trace"])
-    return {"fx_zip": fx_zip, "fx_resume": fx_resume, "fx_timer": fx_timer, "fx_dill": fx_dill, "fx_chk": fx_chk, "fx_json": fx_json}
+    dr = [r for c, r in probes if c["search"] == "drawer" and r["runs"][0]["outcome"] == "ok"]
+    fx_drawer = bool(dr) and all(r["runs"][0]["result"]["internal_in_memory"] for r in dr)
+    fx_zero = extra[3]["runs"][0]["outcome"] == "ok"
+    return {"fx_zip": fx_zip, "fx_resume": fx_resume, "fx_timer": fx_timer, "fx_dill": fx_dill, "fx_chk": fx_chk, "fx_json": fx_json,
+            "fx_drawer": fx_drawer, "fx_zero": fx_zero}
 
 
 def gen_cases(ctx, configs, probes):
@@ -347,8 +359,14 @@ def oracle_db(case, res):
                 fails.append(("no-summary", "re-run %d returns a result without samples summary / best-fit instance (first run: %s)" % (i, o["summary_ll"])))
             elif r["summary_ll"] != o["summary_ll"] or r["instance"] != o["instance"]:
                 fails.append(("result-changed", "re-run %d reports best fit %s, the first run %s" % (i, r["summary_ll"], o["summary_ll"])))
-            if (r["samples_ll"] is None) or len(r["samples_ll"]) != len(o["samples_ll"]) or not all(close(a, b) for a, b in zip(r["samples_ll"], o["samples_ll"])):
-                fails.append(("samples-changed", "re-run %d returns other samples than the first run stored" % i))
+            # the database keeps the samples it was asked to keep (save_all_samples = False: the minimised list), so the re-run
+            # returns a sub-list of what the sampling run returned from memory; two re-runs return the same list
+            if r["samples_ll"] is None:
+                fails.append(("samples-changed", "re-run %d returns no samples" % i))
+            else:
+                msg = samples_differ(o, r, oks[0]["evals"] != 0) or (i >= 2 and samples_differ(oks[1]["result"], r, False))
+                if msg:
+                    fails.append(("samples-changed", "re-run %d: %s" % (i, msg)))
     return fails
 
 
@@ -447,7 +465,8 @@ def oracle(case, res):
 # ---------------------------------------------------------------------------
 
 def c_code(flags):
-    return "(mkcode %s %s %s %s %s %s)" % tuple(cbool(flags[k]) for k in ("fx_zip", "fx_resume", "fx_timer", "fx_dill", "fx_chk", "fx_json"))
+    return "(mkcode %s %s %s %s %s %s %s %s)" % tuple(cbool(flags[k]) for k in (
+        "fx_zip", "fx_resume", "fx_timer", "fx_dill", "fx_chk", "fx_json", "fx_drawer", "fx_zero"))
 
 
 def c_cfg(c):
@@ -627,6 +646,7 @@ def run(ctx):
         history(lb, [crash(("W", "Marker", 0), "before"), FULL]),
         history({"search": "drawer", "remove_files": 0, "csv": 0, "keep_internal": 1, "chk": 0}, [crash(("W", "StartTime", 0), "empty"), FULL]),
         history(dict(lb, chk=1), [crash(("W", "Marker", 0), "before"), FULL]),
+        history(dict(lb, updates=0), [FULL]),
     ]
     extra_cfgs = [] if ctx.replay else ORACLE_ONLY
     configs = configs + extra_cfgs
@@ -648,9 +668,13 @@ def run(ctx):
     ctx.notes["code_flags_detected"] = flags
     # every repair is in /repo: the correspondence is pinned to the `repaired` variant of the model (the one the *_repaired
     # theorems are about); a regression of a repair shows up here, in the correspondence and in the oracle
-    ctx.obligation("model-variant", "correspondence", all(flags.values()),
-                   "behavioural probes: %s (all must be true = Model.repaired)" % json.dumps(flags))
-    flags = {k: True for k in flags}
+    expected = dict(EXPECTED)
+    for k in filter(None, os.environ.get("C06_EXPECT_PROPOSED", "").split(",")):     # trying a proposed repair on a scratch copy
+        expected[k] = True
+    ctx.notes["model_variant"] = expected
+    ctx.obligation("model-variant", "correspondence", flags == expected,
+                   "behavioural probes: %s; expected (Model.repaired): %s" % (json.dumps(flags), json.dumps(expected)))
+    flags = expected
     ctx.notes["events_fresh_run"] = {cfg_key(c): len(r["runs"][0]["trace"]) for c, r in probes}
     # stage 2: histories
     if ctx.replay and rp.get("case"):
